@@ -14,7 +14,7 @@ WHAT = {"P07-begin-not-refused": "begin for an open token / at the maximum was n
 def similar_tokens():
     """Tokens that differ only in case, padding, a prefix, or not at all but for one byte: each is its own key of the map."""
     pairs = [([97], [65]), ([97], [97, 32]), ([97], [32, 97]), ([97, 98], [97]), ([97], []), ([97, 98], [98, 97]), ([132], [142]), ([48], [48, 48]),
-             ([97, 0], [97]), ([255], [254])]
+             ([97, 0], [97]), ([255], [254]), ([88], [65, 67, 88]), ([65, 67], [65, 67, 65, 67]), ([], [65, 67]), ([88, 65, 67], [88])]
     ok = {"o": "ok", "status": {"amount": [1]}}
     out = []
     for a, b in pairs:
@@ -26,6 +26,13 @@ def similar_tokens():
                          {"op": closing, "token": first, "amount": [1]}, {"op": closing, "token": second, "amount": [1]}]
                 out.append({"config": {"max": 2}, "term": {"next_receipt": 7}, "calls": calls, "plan": {"exchanges": [], "default": ok}})
                 out.append({"config": {"max": 1}, "term": {"next_receipt": 7}, "calls": calls, "plan": {"exchanges": [], "default": ok}})
+    # the terminal issues the same receipt number twice: both tokens are open, each closes on its own
+    for r in (7, 9999):
+        for closing in ("commit", "cancel"):
+            calls = [{"op": "begin", "token": [65], "amount": []}, {"op": "begin", "token": [66], "amount": []}, {"op": "begin", "token": [67], "amount": []},
+                     {"op": closing, "token": [65], "amount": [1]}, {"op": closing, "token": [66], "amount": [1]}, {"op": closing, "token": [65], "amount": [1]}]
+            out.append({"config": {"max": 2}, "term": {"next_receipt": 1}, "calls": calls,
+                        "plan": {"exchanges": [dict(ok, receipt=r), dict(ok, receipt=r)], "default": ok}})
     return out
 
 
